@@ -113,3 +113,16 @@ package jrpc2
 //@ census[C06] handler-called-only-in-invoke: calls-of-sig Handler only-in (*Server).invoke (*ClientOptions).handleCallback$1$1
 //@ census[C06] release-is-deferred: deferred (*golang.org/x/sync/semaphore.Weighted).Release in (*Server).invoke
 //@ census[C06] globals-immutable: no-global-stores
+
+// ---------------------------------------------------------------------------
+// Client API summaries used by the HTTP bridge and getter (C18, C19)
+// ---------------------------------------------------------------------------
+
+// clientCalls counts, per thread, the calls issued through a client;
+// clientBatches the Batch invocations.
+//@ tlghost clientCalls Int
+//@ tlghost clientBatches Int
+
+//@ func (*Client).CallResult
+//@   modifies clientCalls, *result
+//@   ensures clientCalls == old(clientCalls) + 1
